@@ -66,8 +66,8 @@ type Step struct {
 	K       string   `json:"k"`
 	Svc     int      `json:"svc,omitempty"`
 	Prov    int      `json:"prov,omitempty"`
-	Own     int      `json:"own,omitempty"`  // owner selection: 0 = the provider's registered/default owner, 1 = the other owner
-	Who     int      `json:"who,omitempty"`  // explicit actor (author, consumer, withdraw address, transfer source)
+	Own     int      `json:"own,omitempty"` // owner selection: 0 = the provider's registered/default owner, 1 = the other owner
+	Who     int      `json:"who,omitempty"` // explicit actor (author, consumer, withdraw address, transfer source)
 	To      int      `json:"to,omitempty"`
 	DepD    int      `json:"depd,omitempty"`
 	DepA    int64    `json:"depa,omitempty"`
@@ -400,23 +400,25 @@ func coins(d int, a int64) sdk.Coins {
 // ---------------------------------------------------------------- executing a history
 
 type cbrec struct {
-	kind     int
-	id       []byte
-	batch    uint64
-	nout     int
-	ok       bool
+	kind  int
+	id    []byte
+	batch uint64
+	nout  int
+	ok    bool
 }
 
 type world struct {
-	e      *lib.Env
-	k      servicekeeper.Keeper
-	key    storetypes.StoreKey
-	t0     int64
-	rates  map[string]string
-	cbs    []cbrec
-	txfull map[uint64][]byte // first 8 bytes of a tx hash -> full hash
-	actIdx map[string]int
-	note   string
+	e         *lib.Env
+	k         servicekeeper.Keeper
+	key       storetypes.StoreKey
+	t0        int64
+	rates     map[string]string
+	cbs       []cbrec
+	txfull    map[uint64][]byte // first 8 bytes of a tx hash -> full hash
+	actIdx    map[string]int
+	note      string
+	first     bool // the initial observation is a bare obs
+	lastState string
 }
 
 func (w *world) addr(i int) sdk.AccAddress {
@@ -655,11 +657,20 @@ func (w *world) observe(code int, newctx string, cbFrom int) (string, []reqView,
 		}
 		cbs = append(cbs, lib.Pair(lib.Z(int64(c.kind)), coqCtxID(c.id), lib.ZU(c.batch), lib.Z(int64(c.nout)), ok))
 	}
-	o := lib.App("mkObs", lib.Z(int64(code)), newctx, lib.Z(e.Height), lib.Z(e.Time.Unix()),
+	stateStr := strings.Join([]string{lib.Z(e.Height), lib.Z(e.Time.Unix()),
 		lib.L(bals...), lib.L(binds...), lib.L(ctxs...), lib.L(reqs...), lib.L(vols...), lib.L(earned...), lib.L(oearned...),
 		lib.L(queue(servicetypes.NewRequestBatchKey)...), lib.L(marks(servicetypes.NewRequestBatchHeightKey)...),
-		lib.L(queue(servicetypes.ExpiredRequestBatchKey)...), lib.L(marks(servicetypes.ExpiredRequestBatchHeightKey)...),
-		lib.L(cbs...))
+		lib.L(queue(servicetypes.ExpiredRequestBatchKey)...), lib.L(marks(servicetypes.ExpiredRequestBatchHeightKey)...)}, " ")
+	o := lib.App("mkObs", lib.Z(int64(code)), newctx, stateStr, lib.L(cbs...))
+	// a step that left every observable as it was is written (Same code): the checker
+	// re-uses the previous observation (this halves the size of the Coq term)
+	if w.lastState == stateStr && newctx == "None" && len(cbs) == 0 && extra == "" && !w.first {
+		o = lib.App("Same", lib.Z(int64(code)))
+	} else if !w.first {
+		o = lib.App("Full", o)
+	}
+	w.first = false
+	w.lastState = stateStr
 	_ = extra
 	if extra != "" {
 		o = o + "(*" + extra + "*)"
@@ -670,7 +681,7 @@ func (w *world) observe(code int, newctx string, cbFrom int) (string, []reqView,
 
 func exec(h History) lib.Case {
 	c := lib.Case{Stats: map[string]int{}}
-	w := &world{rates: map[string]string{}, txfull: map[uint64][]byte{}, actIdx: map[string]int{}}
+	w := &world{first: true, rates: map[string]string{}, txfull: map[uint64][]byte{}, actIdx: map[string]int{}}
 	cfg := h.Cfg
 	for len(cfg.Bal) < nActors {
 		cfg.Bal = append(cfg.Bal, []int64{1000000000, 1000000000})
